@@ -85,9 +85,11 @@ def spec(prop, tier):
     if prop == "C01":
         if q:
             primary = ["P1", "P3", "F1", "F3", "V1", "V3", "V4", "M1"]
-            return hist_runs(primary, tier, depth=8) + hist_runs([l for l in ALL_LISTS if l not in primary], tier, depth=6) + \
+            # (V14 has three spans: 27 emplace_back variants per state with span lengths 0..2 - explored with lengths 0..1)
+            return hist_runs(primary, tier, depth=8) + hist_runs([l for l in ALL_LISTS if l not in primary and l != "V14"], tier, depth=6) + \
+                hist_runs(["V14"], tier, depth=6, cmax=1) + \
                 big_runs(["F1", "F3", "V1", "V2", "V3", "V5", "M1", "M2"], tier, depth=6) + \
-                wide_runs(["P1", "F1", "F3", "V1", "V2", "V3", "V5", "M1", "M2", "V14", "M4"], tier, depth=5)
+                wide_runs(["P1", "F1", "F3", "V1", "V2", "V3", "V5", "M1", "M2", "M4"], tier, depth=5) + wide_runs(["V14"], tier, depth=4)
         return hist_runs(ALL_LISTS, tier, allocs=("AE", "NP"), nmax=4, cmax=3, bmax=6, depth=7) + \
             wide_runs(ALL_LISTS, tier, depth=6) + wide_runs(["F1", "V1", "V3", "M1"], tier, depth=5, nmax=33)
     if prop == "C16":
@@ -292,7 +294,7 @@ def collect(prop, tier, runs, t0, deadline_s):
             os.unlink(of)
         outfiles[key] = (of, r)
         cmds.append((key, engine_argv(builds["eng_%s_%s" % (r["list"], r["alloc"])][0], r, prop, of, workers,
-                                      max(5.0, deadline_s - (time.time() - t0)))))
+                                      deadline_s)))  # per engine process, counted from its own start (build time does not eat into it)
     res = C.run_many(cmds)
     cov = dict(states=0, transitions=0, traces_validated_against_impl=0, terminal_checks=0, fault_runs=0,
                foreign_seen=0, crashes=0, configs=[], samples=[], ops_dropped_by_probe=dropped)
@@ -396,7 +398,7 @@ def constness_probes(prop, tier):
 
 def run_check(prop, tier):
     t0 = time.time()
-    deadline = 150.0 if tier == "quick" else 1500.0
+    deadline = 240.0 if tier == "quick" else 1500.0
     runs = spec(prop, tier)
     cov, violations, internal = collect(prop, tier, runs, t0, deadline)
     cov["bounds"] = {"tier": tier, "runs": len(runs)}
